@@ -28,7 +28,7 @@ fn main() {
     ck.assume("a zero-length span at or inside another span, and the empty span set, are outside the strict clauses (either documented outcome accepted, consistently)");
     ck.assume("temp files live on a healthy local filesystem; I/O errors of the harness itself are reported as infrastructure trouble");
 
-    ck.run(Section::pbt("extract", tier.pick(1_500, 150_000), move || extract::strategy(tier), extract::check).shards(16));
+    ck.run(Section::pbt("extract", tier.pick(1_500, 75_000), move || extract::strategy(tier), extract::check).shards(16));
     let infra: Vec<String> = std::mem::take(&mut *extract::INFRA.lock().unwrap());
     for m in infra {
         ck.infra(format!("extract: {m}"));
